@@ -23,6 +23,7 @@ RULE = (
     "scalar+pseudo-scalar) x adversarial inner 1-D models. Non-trivial: control defect of the inner model >= 0.05 and g != e; "
     "distinct by configuration."
 )
+RULE += " One group-average case in three draws its operator list from ALL subgroups of B_d (10 / 98)."
 RULE += " Also: inference_mode toggle histories, empty and shuffled operator lists, inner models with state in aux_data, inner models carrying equivariant=True."
 ASSUMPTIONS = ["reference action (d=2,3 and the 1-D action)", "tolerance 1e-4 of the trace scale (grey to 1e-3)"]
 ANCHORS = ["ginjax.models:GroupAverage.__call__", "ginjax.models:Climate1D.__call__", "ginjax.models:Climate1D.to1d", "ginjax.models:Climate1D.from1d", "ginjax.models:Climate1D.get_1d_signature", "ginjax.models:ModelWrapper.__call__"]
@@ -122,6 +123,12 @@ def run_ga(case, ctx):
     subs = rgroup.subgroups(D)
     gname = list(subs)[int(rng.integers(len(subs)))]
     Gp = subs[gname]
+    if case["i"] % 3 == 2:
+        # any finite group of signed permutations may be handed over as the operator list: one case in three draws from ALL
+        # subgroups of B_d (10 for d=2, 98 for d=3; own stream, the case's other draws do not move)
+        allsub = rgroup.all_subgroups(D)
+        gname = list(allsub)[int(np.random.default_rng([ctx["seed"], 10, case["i"], 3]).integers(len(allsub)))]
+        Gp = allsub[gname]
     pool = [(k, p) for k in range(3 if D == 2 else 2) for p in (0, 1)]
     in_sig = [(pool[i], int(rng.integers(1, 3))) for i in rng.choice(len(pool), size=int(rng.integers(1, 3)), replace=False)]
     out_sig = [(pool[i], int(rng.integers(1, 3))) for i in rng.choice(len(pool), size=int(rng.integers(1, 3)), replace=False)]
